@@ -108,9 +108,14 @@ def gen_abstract(rng, nstmt=None, dup_outputs=False, includes=False, scoping=Fal
         elif includes:
             fname = "%s%d.ninja" % (file_prefix, len(files))
             # (one time in three the included file includes a further file: scopes chain over more than one level)
-            sub, subfiles = gen_abstract(rng, nstmt=rng.randint(1, 5), includes=(depth < 2 and rng.random() < 0.35), depth=depth + 1,
-                                         file_prefix="%s%d_" % (file_prefix, len(files)))
-            files.update(subfiles)
+            sub, subfiles = gen_abstract(rng, nstmt=rng.randint(1, 5), depth=depth + 1)
+            if depth < 2 and rng.random() < 0.35:
+                gname = "%s%d_g.ninja" % (file_prefix, len(files))
+                gsub, _ = gen_abstract(rng, nstmt=rng.randint(1, 4), depth=depth + 2)
+                if rng.random() < 0.5:
+                    gsub = [x for x in gsub if x[0] == "bind"] or [("bind", "v1", [("var", "v0"), ("lit", "g")])]
+                files[gname] = gsub
+                sub.insert(rng.randint(0, len(sub)), (rng.choice(["include", "subninja"]), gname))
             # the included file binds variables and (two times out of three) also declares rules, pools and steps that read the
             # scope in force at the include line; the statements after the line may rebind what the child read
             if rng.random() < 0.33:
